@@ -8,7 +8,7 @@
      byte slices and byte arrays whose bytes are related position by position [brel];
    - values of user types whose String / Error / GoString method returns related strings, or whose
      Format / SafeFormat method runs a script of SafeWriter / io.Writer calls with related payloads
-     and nested Print / Printf on related operands [vrel, actrel];
+     and nested Print / Printf on related operands, or is called on a nil pointer receiver [vrel, actrel];
    - Unsafe(x) for such a tree x, Safe(x) for a leaf x;
    make Buffer calls related by [dsim]: the same mode switches, the same literal/diagnostic writes,
    unsafe stretches of the same skeleton.  Hence (SegNI) Redact() of the two results is
@@ -128,6 +128,13 @@ Inductive vrel : value -> value -> Prop :=
     iSafeFormatter i = true -> iFormatter i = false -> iGoStringer i = false -> iStringer i = false -> iError i = false ->
     Forall2 actrel sc1 sc2 -> vrel r1 r2 ->
     vrel (VUser t i false r1 sc1) (VUser t i false r2 sc2)
+(* ... whose Format / SafeFormat method is called on a nil pointer receiver (it panics at once) *)
+| vr_nfuser t i r1 r2 sc1 sc2 :
+    treg t = false -> tsv t = false ->
+    ((iFormatter i = true /\ iSafeFormatter i = false /\ iSafeMessager i = false) \/
+     (iSafeFormatter i = true /\ iFormatter i = false /\ iGoStringer i = false /\ iStringer i = false /\ iError i = false)) ->
+    vrel r1 r2 ->
+    vrel (VUser t i true r1 sc1) (VUser t i true r2 sc2)
 (* a SafeMessager: the (declared safe) message is the same on both sides; the rest may differ *)
 | vr_smuser t i r1 r2 x rest1 rest2 :
     treg t = false -> tsv t = false ->
@@ -1506,6 +1513,53 @@ Section Rec.
     unfold bind, getf. cbn iota beta. destruct (sharpV (fl (pf s))); [reflexivity|]. destruct (isv verb "vsxXq"); reflexivity.
   Qed.
 
+  (* Format / SafeFormat called on a nil pointer receiver *)
+  Definition nil_call (a : value) (verb : Z) (method : string) : M bool :=
+    catch_panic rec a verb method (panic nil_recv_panic) ;;; ret true.
+
+  Lemma handleMethods_nfmt_run verb s t i r sc :
+    parg s = Some (VUser t i true r sc) -> wrapErrs s = false ->
+    iFormatter i = true -> iSafeFormatter i = false -> iSafeMessager i = false ->
+    handleMethods rec env verb s =
+    if erroring s then (ROk false, s)
+    else if verb =? 119 then hm_bad verb s
+    else via_hook (VUser t i true r sc) i verb s (nil_call (VUser t i true r sc) verb "Format") s.
+  Proof.
+    intros Ea Hw F1 F2 F3. unfold handleMethods, bind at 1, Printer.get. cbn iota beta.
+    destruct (erroring s); [reflexivity|]. rewrite Ea, Hw. cbn [negb orb]. rewrite Bool.orb_true_r, Bool.andb_true_r.
+    destruct (verb =? 119); [reflexivity|].
+    unfold bind at 1, ret at 1. cbn iota beta.
+    rewrite F1, F2, F3. unfold via_hook.
+    destruct (negb (ovr_eqb (povr s) OvrUnsafe)); cbn [andb]; [|reflexivity].
+    destruct (iError i); [|reflexivity]. destruct (hook env); reflexivity.
+  Qed.
+
+  Lemma handleMethods_nsf_run verb s t i r sc :
+    parg s = Some (VUser t i true r sc) -> wrapErrs s = false ->
+    iSafeFormatter i = true -> iFormatter i = false -> iGoStringer i = false -> iStringer i = false -> iError i = false ->
+    handleMethods rec env verb s =
+    if erroring s then (ROk false, s)
+    else if verb =? 119 then hm_bad verb s
+    else if negb (ovr_eqb (povr s) OvrUnsafe) then nil_call (VUser t i true r sc) verb "SafeFormat" s
+    else (ROk false, s).
+  Proof.
+    intros Ea Hw F1 F2 F3 F4 F5. unfold handleMethods, bind at 1, Printer.get. cbn iota beta.
+    destruct (erroring s); [reflexivity|]. rewrite Ea, Hw. cbn [negb orb]. rewrite Bool.orb_true_r, Bool.andb_true_r.
+    destruct (verb =? 119); [reflexivity|].
+    unfold bind at 1, ret at 1. cbn iota beta.
+    rewrite F1, F2, F3, F4, F5.
+    destruct (negb (ovr_eqb (povr s) OvrUnsafe)); [reflexivity|].
+    unfold bind, getf. cbn iota beta. destruct (sharpV (fl (pf s))); [reflexivity|]. destruct (isv verb "vsxXq"); reflexivity.
+  Qed.
+
+  Lemma Jnil_call a1 a2 verb method : is_nil_ptr a1 = is_nil_ptr a2 ->
+    JS (HS False) eq (nil_call a1 verb method) (nil_call a2 verb method).
+  Proof.
+    intros Hnp. unfold nil_call. eapply JS_bind; [|intros; now apply J_ret].
+    apply Jcatch_panic; [exact Hnp | intros s; reflexivity |].
+    apply J_JS. apply J_panic. apply ar_v, vr_leaf, lrel_refl. reflexivity.
+  Qed.
+
   Lemma Jscript_call a1 a2 verb method sc1 sc2 : is_nil_ptr a1 = is_nil_ptr a2 -> Forall2 actrel sc1 sc2 ->
     JS (HS False) eq (script_call a1 verb method sc1) (script_call a2 verb method sc2).
   Proof.
@@ -1627,6 +1681,22 @@ Section Rec.
           destruct (erroring s1); [refine (conj eq_refl (conj N (conj S _))); apply seg_refl|].
           destruct (verb =? 119); [apply J_hm_bad; auto|].
           destruct (negb (ovr_eqb (povr s1) OvrUnsafe)); [apply Jscript_call; auto | refine (conj eq_refl (conj N (conj S _))); apply seg_refl].
+        * (* Format / SafeFormat on a nil receiver *)
+          match goal with Hx : _ \/ _ |- _ => destruct Hx as [(F1 & F2 & F3) | (F1 & F2 & F3 & F4 & F5)] end.
+          -- rewrite (handleMethods_nfmt_run verb s1 _ _ _ _ E1 (nb_nw _ _ N)) by assumption.
+             rewrite (handleMethods_nfmt_run verb s2 _ _ _ _ E2 Hw2) by assumption.
+             rewrite <- (nb_err _ _ N).
+             destruct (erroring s1); [refine (conj eq_refl (conj N (conj S _))); apply seg_refl|].
+             destruct (verb =? 119); [apply J_hm_bad; auto|].
+             unfold via_hook. rewrite <- (nb_ovr _ _ N).
+             destruct (negb (ovr_eqb (povr s1) OvrUnsafe) && iError i);
+               [destruct (hook env) as [h|]; [apply Jscript_call; auto|]|]; apply Jnil_call; auto.
+          -- rewrite (handleMethods_nsf_run verb s1 _ _ _ _ E1 (nb_nw _ _ N)) by assumption.
+             rewrite (handleMethods_nsf_run verb s2 _ _ _ _ E2 Hw2) by assumption.
+             rewrite <- (nb_err _ _ N), <- (nb_ovr _ _ N).
+             destruct (erroring s1); [refine (conj eq_refl (conj N (conj S _))); apply seg_refl|].
+             destruct (verb =? 119); [apply J_hm_bad; auto|].
+             destruct (negb (ovr_eqb (povr s1) OvrUnsafe)); [apply Jnil_call; auto | refine (conj eq_refl (conj N (conj S _))); apply seg_refl].
         * (* SafeMessage *)
           rewrite (handleMethods_sm_run verb s1 _ _ _ _ _ E1 (nb_nw _ _ N)) by assumption.
           rewrite (handleMethods_sm_run verb s2 _ _ _ _ _ E2 Hw2) by assumption.
@@ -1935,6 +2005,7 @@ Section Rec.
     - discriminate.
     - discriminate.
     - discriminate.
+    - discriminate.
   Qed.
 
   (* a user value no method took: reflection prints its representation *)
@@ -1942,9 +2013,9 @@ Section Rec.
     JS (HS (v1 = v2 /\ lfs v1 = true)) any (print_kind fuel rec env v1 verb depth ci) (print_kind fuel rec env v2 verb depth ci).
   Proof.
     induction fuel as [|k IHf]; intros v1 v2 verb depth ci Hv; (destruct (isuser v1) eqn:U; [|now apply Jprint_kind_nu]).
-    - inversion Hv; subst; try discriminate; [destruct H as (L1 & _); destruct v1; discriminate| | | | | |];
+    - inversion Hv; subst; try discriminate; [destruct H as (L1 & _); destruct v1; discriminate| | | | | | |];
         cbn [print_kind]; intros ? ? _ _ _; exact Logic.I.
-    - inversion Hv; subst; try discriminate; [destruct H as (L1 & _); destruct v1; discriminate| | | | | |];
+    - inversion Hv; subst; try discriminate; [destruct H as (L1 & _); destruct v1; discriminate| | | | | | |];
         cbn [print_kind]; (eapply JS_weaken; [|apply IHf; eassumption]); intros ? ? Hx Ho; destruct (Hx Ho) as [_ Lx]; discriminate.
   Qed.
 
